@@ -60,6 +60,9 @@ def timeout_add_seconds(interval, func, *args, **kw):
 
 
 def io_add_watch(chan, cond, func, *args, **kw):
+    # PyGObject: int fd, object with fileno(), or GLib.IOChannel; anything else fails its assertion
+    if not isinstance(chan, int) and not hasattr(chan, 'fileno'):
+        raise AssertionError('io_add_watch: channel must be an fd, have fileno(), or be an IOChannel')
     s = STATE
     sid = s.next_id
     s.next_id += 1
